@@ -63,6 +63,11 @@ def build(variant="std64", bin_name="drive"):
     cargo_args, flags, tdir = VARIANTS[variant]
     rustflags = ["--cfg", "dashu_verif", "--check-cfg", "cfg(dashu_verif)",
                  "--check-cfg", 'cfg(force_bits, values("16","32","64"))'] + flags
+    alt = os.environ.get("VERIF_REPO")     # development aid: build against a scratch worktree instead of /repo
+    if alt:
+        tdir = os.path.join("/tmp", "verif-target-" + hashlib.md5(alt.encode()).hexdigest()[:8], tdir)
+        cargo_args = cargo_args + ["--config", "paths=[%s]" % ",".join(
+            '"%s/%s"' % (alt, d) for d in ("base", "integer", "float", "rational", "macros"))]
     env = {"CARGO_ENCODED_RUSTFLAGS": "\x1f".join(rustflags), "CARGO_TARGET_DIR": os.path.join(HARNESS, tdir)}
     t = time.time()
     rc, out = sh(["cargo", "build", "--offline", "--bin", bin_name] + cargo_args, cwd=HARNESS, env=env, timeout=1800)
